@@ -46,13 +46,14 @@ func Run(log *slog.Logger, cfg Config,
 	clk timebase.SystemClock, adj adjustments.Adjustment,
 	refClks, peerClks []client.ReferenceClock) {
 	ctx := context.Background()
-	if cfg.ReferenceClockImpact <= 1.0 {
+	// The conditions are written so that NaN is refused as well.
+	if !(cfg.ReferenceClockImpact > 1.0) {
 		panic("invalid local reference clock impact factor")
 	}
-	if cfg.PeerClockImpact <= 1.0 {
+	if !(cfg.PeerClockImpact > 1.0) {
 		panic("invalid peer clock impact factor")
 	}
-	if cfg.PeerClockImpact-1.0 <= cfg.ReferenceClockImpact {
+	if !(cfg.PeerClockImpact-1.0 > cfg.ReferenceClockImpact) {
 		panic("invalid peer clock impact factor")
 	}
 	if cfg.SyncInterval <= 0 {
